@@ -109,6 +109,18 @@ def compare(op, a, b):
             except TypeError:
                 raise Undecided(f"membership test in {type(b).__name__}")
         return r if isinstance(op, ast.In) else not r
+    if isinstance(a, NRows) or isinstance(b, NRows):
+        if isinstance(a, NRows) and isinstance(b, NRows):
+            if a.pop is not None and a.pop is b.pop:
+                return PYCMP[type(op)](0, 0)
+            raise Undecided("comparison of the sizes of two different row populations")
+        other = b if isinstance(a, NRows) else a
+        if isinstance(other, Term) and other.is_const():
+            other = other.cval()
+        if num(other) and other <= 0:
+            # len(table) of a non-empty table vs 0 / negative constant
+            return PYCMP[type(op)](1, 0) if isinstance(a, NRows) else PYCMP[type(op)](0, 1)
+        raise Undecided(f"comparison of a table size with {other!r}")
     if isinstance(a, Opaque) or isinstance(b, Opaque):
         raise Undecided(f"comparison of opaque value {a!r} / {b!r}")
     if is_nan(a) and (num(b) or isinstance(b, (Term, OrderVal))) or is_nan(b) and (num(a) or isinstance(a, (Term, OrderVal))):
@@ -283,6 +295,15 @@ def truth(c):
     return bool(c)
 
 
+class GenList(list):
+    """the (eagerly collected) items of an interpreted generator; also usable with next()"""
+
+    def __next__(self):
+        if not self:
+            raise StopIteration
+        return self.pop(0)
+
+
 class Model:
     """Property-specific hooks: primitive summaries and the library model."""
 
@@ -365,7 +386,7 @@ class Interp:
             except Ret as r:
                 if not is_gen:
                     return r.v
-            return env["__yields__"] if is_gen else None
+            return GenList(env["__yields__"]) if is_gen else None
         finally:
             self.depth -= 1
 
@@ -728,6 +749,14 @@ class Interp:
                     return
                 raise Undecided(f"attribute store {t.attr} on GA")
             if isinstance(obj, DF):
+                if t.attr == "columns":
+                    names = list(self.iterate(v))
+                    old = [c for c in obj.cols if not c.startswith("__")]
+                    if len(names) != len(old):
+                        raise Raised("ValueError", "Length mismatch")
+                    hidden = {c: x for c, x in obj.cols.items() if c.startswith("__")}
+                    obj.cols = dict({nn: obj.cols[oo] for nn, oo in zip(names, old)}, **hidden)
+                    return
                 obj.cols[t.attr] = Vec(bcast(v, obj.n))
                 return
             if isinstance(obj, Row):
